@@ -197,7 +197,17 @@ def obs_c06(o):
         except Exception as e:  # noqa: BLE001
             obss.append(([], (nat(0), nat(0), natlist([]))))
         subs.append({'lattice': 'fromdict(todict()) (ordered path)'})
-    sizes = [len(c.extent) for c in o.concepts]
+        import copy
+        import pickle
+        for name, fn in (('pickle', lambda: pickle.loads(pickle.dumps(o.lattice))),
+                         ('deepcopy', lambda: copy.deepcopy(o.lattice)),
+                         ('pickle of a pickled copy', lambda: pickle.loads(pickle.dumps(pickle.loads(pickle.dumps(o.lattice, 2)))))):
+            try:
+                obss.append(lattice_order_obs(o, fn()))
+            except Exception as e:  # noqa: BLE001
+                obss.append(([], (nat(0), nat(0), natlist([]))))
+            subs.append({'lattice': f'{name} of the computed lattice'})
+    sizes =[len(c.extent) for c in o.concepts]
     nontrivial = len(sizes) != len(set(sizes)) and any(len(c.upper_neighbors) >= 2 for c in o.concepts)
     term = f'({o.head()}, {coq(obss)})'
     return term, nontrivial, subs
@@ -517,6 +527,26 @@ def obs_c20(o):
             stmts.append((9, nat(0), natlist([])))        # unparsable statement
         if not src_ok or 'dir=none' not in dot.source:
             stmts.append((9, nat(0), natlist([])))
+        # the same graph with none / only one of the callbacks customised: the other labels are the names joined by a blank
+        from graphviz import quoting
+
+        def expected(custom_o, custom_p):
+            out = []
+            for line in body:
+                m = LABEL.match(line)
+                if m:
+                    for key, custom, names in (('headlabel', custom_o, cx.objects), ('taillabel', custom_p, cx.properties)):
+                        mm = re.search(key + r'=([OP]_[0-9_]*)', line)
+                        if mm and not custom:
+                            text = ' '.join(names[int(x)] for x in mm.group(1).split('_')[1:])
+                            line = line.replace(mm.group(0), key + '=' + quoting.quote(text))
+                out.append(line)
+            return out
+        if o.n <= 300:
+            for kw, co, cp in (({}, False, False), ({'make_object_label': olabel}, True, False),
+                               ({'make_property_label': plabel}, False, True)):
+                if list(o.lattice.graphviz(**kw).body) != expected(co, cp):
+                    stmts.append((9, nat(1), natlist([])))
     except Exception as e:  # noqa: BLE001
         stmts = [(100 + util.tag_of(e), nat(0), natlist([]))]
     subs = [{'statement': [s[0], s[1].text, s[2].text]} for s in stmts]
